@@ -268,31 +268,62 @@ def flow_rules(prog, R):
         deleg.append(('<%s::RecordsIter as std::iter::Iterator>::next' % fmt, '%s::Reader::next' % fmt, None))
         deleg.append(('<%s::RecordsIntoIter as std::iter::Iterator>::next' % fmt, '%s::Reader::next' % fmt, None))
         deleg.append(('<%s::Reader as parallel::Reader>::fill_data' % fmt, '%s::Reader::read_record_set' % fmt, None))
+    def max_ops(body, targets, depth=0, seen=()):
+        """(max number of calls of the state-machine operation along any path, other &mut-self reader calls made)
+        counted through private helpers; a call inside a loop counts as 2 (more than one)"""
+        loops = body.cfg.natural_loops()
+        inloop = set(x for bl in loops.values() for x in bl)
+        per_block = {}
+        others = []
+        for x, t in body.calls():
+            cb = prog.local_callee_body(t.callee)
+            if cb is None:
+                continue
+            n = 0
+            if cb.key in targets:
+                n = 1
+            elif depth < 3 and cb.key not in seen and ('::Reader::' in cb.key or '::Records' in cb.key):
+                n, o2 = max_ops(cb, targets, depth + 1, seen + (body.key,))
+                if n == 0 and cb.arg_count >= 1 and '&mut' in cb.local_tys[1] and '::Reader::' in cb.key:
+                    others.append(cb.key)
+                others += o2
+            elif cb.arg_count >= 1 and '&mut' in cb.local_tys[1] and '::Reader<' in cb.local_tys[1]:
+                others.append(cb.key)
+            if n:
+                per_block[x] = per_block.get(x, 0) + (n if x not in inloop else 2)
+        # longest path over the acyclic condensation: a simple DFS on the CFG without back edges
+        back = set(body.cfg.back_edges())
+        memo = {}
+
+        def longest(x):
+            if x in memo:
+                return memo[x]
+            memo[x] = 0
+            best = 0
+            for y in body.cfg.succ.get(x, ()):
+                if (x, y) in back:
+                    continue
+                best = max(best, longest(y))
+            memo[x] = per_block.get(x, 0) + best
+            return memo[x]
+        return (longest(0) if body.blocks else 0), others
+
     for key, target, extra in deleg:
         try:
             b = prog.get(key)
         except KeyError:
             R.anchor_missing('FSM-D', key)
             continue
-        calls = [(x, t) for x, t in b.calls()]
-        tcalls = [(x, t) for x, t in calls if prog.local_callee_body(t.callee) is not None and prog.local_callee_body(t.callee).key == target]
-        others = [(x, t) for x, t in calls if (x, t) not in tcalls and not (t.callee and t.callee.path in ('std::option::Option::map', 'std::result::Result::map'))]
-        ok = len(tcalls) == 1 and not others
-        if ok:
-            rs = roots_of(b, Place({'l': 0, 'p': []}), through_calls=lambda c: 0 if c and c.path in ('std::option::Option::map',) else None)
-            ok = bool(rs) and all(r[0] == 'call' and r[1] is tcalls[0][1] for r in rs)
-            if ok and extra == 'none-arg':
-                a = tcalls[0][1].args[-1]
-                ops = unwrap_aggs(b, a, [('adt', 'None')])
+        n, others = max_ops(b, {target})
+        ok = n == 1 and not others
+        detail = 'calls of %s along a path: at most %d (through private helpers); other mutating reader calls: %s' % (target, n, sorted(set(others)) or 'none')
+        if ok and extra == 'none-arg':
+            tc = [t for _, t in b.calls() if prog.local_callee_body(t.callee) is not None and prog.local_callee_body(t.callee).key == target]
+            if len(tc) == 1:
+                ops = unwrap_aggs(b, tc[0].args[-1], [('adt', 'None')])
                 ok = ops is not None
-            # arguments are passed through unchanged (self, rset)
-            for i, a in enumerate(tcalls[0][1].args[:b.arg_count]):
-                if a.is_const:
-                    continue
-                q = roots_of(b, a)
-                if not all(r[0] == 'arg' and r[1] == i + 1 for r in q):
-                    ok = False
-        R.add('FSM-D', b, 'delegates', ok, site(b, b.span['lo']), 'single call of %s whose result is returned: %s' % (target, ok))
+                detail += '; plain sets ask for no exact count: %s' % ok
+        R.add('FSM-D', b, 'delegates', ok, site(b, b.span['lo']), detail)
     R.floor('FSM-D', 8)
     # ---------------- FSM-S4 (events of the abstract interpreter; robust to helper extraction)
     for fmt in ('fasta', 'fastq'):
